@@ -101,6 +101,7 @@ class Block:
         self.raw = False
         self.slice = None
         self.arm = None
+        self.block = None
         self.header = None
         self.ret = None
         self.tail = None
@@ -193,6 +194,9 @@ def parse_template(path):
             elif key == 'arm':
                 mm = re.fullmatch(r'/(.*)/', arg)
                 cur.arm = mm.group(1)
+            elif key == 'block':
+                mm = re.fullmatch(r'/(.*)/', arg)
+                cur.block = mm.group(1)
             elif key == 'header':
                 cur.header = arg
             elif key == 'ret':
@@ -402,6 +406,20 @@ def expand_block(blk, gen, unit_id):
         base = line_of(rf.text, a)
         if not blk.early_return:
             check_slice_shape(mask(body), blk.label)
+    elif getattr(blk, 'block', None):
+        # the contents of the `{ .. }` block that opens at the end of the anchored line (a closure body, an inner block)
+        kind = 'inner-block-slice'
+        a = rf.unique_line(blk.block, body_lo, body_hi, 'block')
+        eol = rf.text.find('\n', a)
+        j = rf.masked.rfind('{', a, eol)
+        if j < 0 or rf.masked[j + 1:eol].strip():
+            raise ExtractError('lost anchor: no block opens at the end of the anchored line in %s' % blk.label)
+        close = match_close(rf.masked, j)
+        endl = line_start(rf.text, close)
+        if rf.masked[endl:close].strip():
+            raise ExtractError('block shape unsupported in %s' % blk.label)
+        body = rf.text[eol + 1:endl - 1]
+        base = line_of(rf.text, eol + 1)
     elif blk.arm:
         kind = 'match-arm-slice'
         a = rf.unique_line(blk.arm, body_lo, body_hi, 'arm')
